@@ -1,7 +1,10 @@
 package main
 
 import (
+	"fmt"
 	"go/token"
+	"go/types"
+	"sort"
 	"strings"
 
 	"golang.org/x/tools/go/ssa"
@@ -17,6 +20,8 @@ func checkC10(c *Ctx) {
 	c.rule("TOTAL-importer", "importer is panic-free, allocation-bounded and loop-free on arbitrary node streams", 30)
 	c.rule("OWN-root-marker", "root marker written only by Commit; publication after the synchronous write", 4)
 	c.rule("ERR-export", "an export that hits a storage error cannot end with 'done'", 2)
+	c.rule("FLOW-export-fields", "exporter and importer map node fields to stream fields and back identically; children are taken from the stack in left/right order; the compressed stream's version/key coding is undone by its mirror image", 20)
+	checkExportImportFields(c)
 
 	names := []string{"*Importer.Add", "*Importer.Commit", "*Importer.writeNode", "*Importer.Close", "*CompressImporter.Add", "deltaDecode", "maxInt64",
 		"*Node.validate", "*Node.isLeaf", "*Node.GetKey", "*NodeKey.GetKey", "GetRootKey"}
@@ -251,4 +256,140 @@ func checkC10(c *Ctx) {
 		}
 	}
 	c.decide("ERR-export", "Exporter.Next returns the stored traversal error", l.pos(next.Pos()), surf, "Next hands back the error recorded by the export goroutine", "Next never returns a recorded error: a failed traversal ends with 'done'")
+}
+
+// checkExportImportFields: the writer's and the reader's field tables agree.
+// Each stream field is written from one node field by the exporter and read
+// back into the same node field by the importer; the importer rebuilds the
+// parent from the two topmost stack entries in left/right order; the
+// compressing wrapper's version delta and key elision are inverted by the
+// decompressing wrapper.  Roles are rendered from SSA (receiver/parameter
+// positions, field objects), not from text.
+func checkExportImportFields(c *Ctx) {
+	l := c.L
+	const R = "FLOW-export-fields"
+	export := l.Func("", "*Exporter.export")
+	add := l.Func("", "*Importer.Add")
+	enT, nodeT, nkT := l.NamedType("", "ExportNode"), l.NamedType("", "Node"), l.NamedType("", "NodeKey")
+	if export == nil || add == nil || enT == nil || nodeT == nil || nkT == nil {
+		c.anchorMissing(R, "Exporter.export / Importer.Add / ExportNode / Node / NodeKey")
+		return
+	}
+	roles := func(vs []ssa.Value) []string {
+		var out []string
+		for _, v := range vs {
+			out = append(out, roleOfIdx(l, v))
+		}
+		sort.Strings(out)
+		return out
+	}
+	one := func(fn *ssa.Function, T *types.Named, what string) map[string][]ssa.Value {
+		lits := structStoresAll(fn, T)
+		if len(lits) != 1 {
+			c.bad(R, what, l.pos(fn.Pos()), fmt.Sprintf("expected one %s literal, found %d", T.Obj().Name(), len(lits)))
+			return nil
+		}
+		return lits[0]
+	}
+	// --- exporter: stream field <- node field of the node the traversal yields
+	if m := one(export, enT, "export builds one ExportNode per traversed node"); m != nil {
+		for _, e := range [][2]string{{"Key", ".key"}, {"Value", ".value"}, {"Version", ".nodeKey.version"}, {"Height", ".subtreeHeight"}} {
+			rs := roles(m[e[0]])
+			ok := len(rs) == 1 && strings.HasPrefix(rs[0], "next(newTraversal(") && strings.HasSuffix(rs[0], "#0"+e[1])
+			c.decide(R, "export: ExportNode."+e[0]+" <- node"+e[1], l.pos(export.Pos()), ok, "taken from the traversed node's"+e[1], "ExportNode."+e[0]+" is `"+strings.Join(rs, " | ")+"`")
+		}
+		// the traversal is the post-order, ascending, whole-range one the importer assumes
+		for _, in := range callsIn(export, predStatic(l.Func("", "*Node.newTraversal"))) {
+			cc := callCommon(in)
+			var as []string
+			for _, a := range cc.Args[2:] {
+				as = append(as, roleOf(l, a, "", 0))
+			}
+			got := strings.Join(as, ",")
+			c.decide(R, "export: traversal is whole-range, ascending, post-order", l.ipos(in), got == "nil,nil,true,false,true", "newTraversal(tree, nil, nil, ascending, !inclusive, post)", "traversal arguments are ("+got+"): the importer needs children before their parent, left before right")
+		}
+	}
+	// --- importer: node field <- stream field
+	if m := one(add, nodeT, "Add builds one Node per ExportNode"); m != nil {
+		for _, e := range [][2]string{{"key", "arg0.Key"}, {"value", "arg0.Value"}, {"subtreeHeight", "arg0.Height"}} {
+			rs := roles(m[e[0]])
+			c.decide(R, "import: Node."+e[0]+" <- "+e[1], l.pos(add.Pos()), len(rs) == 1 && rs[0] == e[1], "read back from the same stream field", "Node."+e[0]+" is `"+strings.Join(rs, " | ")+"`")
+		}
+		top1, top2 := "recv.stack[(len(recv.stack)-1)]", "recv.stack[(len(recv.stack)-2)]"
+		for _, e := range [][2]string{{"leftNode", top2}, {"rightNode", top1}, {"leftNodeKey", "GetKey(" + top2 + ")"}, {"rightNodeKey", "GetKey(" + top1 + ")"}} {
+			rs := roles(m[e[0]])
+			c.decide(R, "import: Node."+e[0]+" <- "+e[1], l.pos(add.Pos()), len(rs) == 1 && rs[0] == e[1], "left child is the deeper stack entry, right child the top", "Node."+e[0]+" is `"+strings.Join(rs, " | ")+"`")
+		}
+		rs := roles(m["size"])
+		okSize := len(rs) == 2 && rs[1] == "1" && (rs[0] == "("+top2+".size+"+top1+".size)" || rs[0] == "("+top1+".size+"+top2+".size)")
+		c.decide(R, "import: Node.size = 1 (leaf) | left.size + right.size", l.pos(add.Pos()), okSize, "size recomputed from the children", "Node.size is `"+strings.Join(rs, " | ")+"`")
+	}
+	if m := one(add, nkT, "Add builds one NodeKey per ExportNode"); m != nil {
+		rs := roles(m["version"])
+		c.decide(R, "import: NodeKey.version <- arg0.Version", l.pos(add.Pos()), len(rs) == 1 && rs[0] == "arg0.Version", "read back from the same stream field", "NodeKey.version is `"+strings.Join(rs, " | ")+"`")
+		rs = roles(m["nonce"])
+		c.decide(R, "import: NodeKey.nonce = nonces[version] + 1", l.pos(add.Pos()), len(rs) == 1 && rs[0] == "(recv.nonces[arg0.Version]+1)", "per-version counter, root keeps nonce 1", "NodeKey.nonce is `"+strings.Join(rs, " | ")+"`")
+	}
+	// --- compressed stream: Next and Add are mirror images
+	next := l.Func("", "*CompressExporter.Next")
+	cadd := l.Func("", "*CompressImporter.Add")
+	if next == nil || cadd == nil {
+		c.anchorMissing(R, "CompressExporter.Next / CompressImporter.Add")
+		return
+	}
+	fieldStores := func(fn *ssa.Function, T *types.Named, field string) []string {
+		var out []string
+		allInstrs(fn, func(in ssa.Instruction) {
+			st, ok := in.(*ssa.Store)
+			if !ok {
+				return
+			}
+			fa, ok := st.Addr.(*ssa.FieldAddr)
+			if !ok {
+				return
+			}
+			n := derefNamed(fa.X.Type())
+			if n == nil || n.Obj() != T.Obj() || fieldName(fa.X.Type(), fa.Field) != field {
+				return
+			}
+			out = append(out, roleOfIdx(l, st.Val))
+		})
+		sort.Strings(out)
+		return out
+	}
+	mx := func(st string) []string {
+		a, b := st+"[(len("+st+")-1)]", st+"[(len("+st+")-2)]"
+		return []string{"maxInt64(" + a + "," + b + ")", "maxInt64(" + b + "," + a + ")"}
+	}
+	inAny := func(got string, pre string, alts []string, post string) bool {
+		for _, a := range alts {
+			if got == pre+a+post {
+				return true
+			}
+		}
+		return false
+	}
+	// exporter: Version -= max(top two); importer: Version += max(top two)
+	ev := fieldStores(next, enT, "Version")
+	n0 := "Next(recv.inner)#0"
+	c.decide(R, "compress: branch version written as a delta against the larger child version", l.pos(next.Pos()),
+		len(ev) == 1 && inAny(ev[0], "("+n0+".Version-", mx("recv.versionStack"), ")"), "Version - max(top two of the version stack)", "exporter writes Version as `"+strings.Join(ev, " | ")+"`")
+	iv := fieldStores(cadd, enT, "Version")
+	c.decide(R, "decompress: branch version restored by adding the larger child version", l.pos(cadd.Pos()),
+		len(iv) == 1 && inAny(iv[0], "(arg0.Version+", mx("recv.versionStack"), ")"), "Version + max(top two of the version stack)", "importer restores Version as `"+strings.Join(iv, " | ")+"`")
+	// keys: exporter delta-encodes leaf keys against the previous leaf key and drops branch keys;
+	// importer decodes against the previous decoded key and restores branch keys from the min-key stack
+	ek := fieldStores(next, enT, "Key")
+	c.decide(R, "compress: leaf key delta-encoded against the previous leaf key; branch key dropped", l.pos(next.Pos()),
+		len(ek) == 2 && ek[0] == "deltaEncode("+n0+".Key,recv.lastKey)" && ek[1] == "nil", "deltaEncode(key, lastKey) | nil", "exporter writes Key as `"+strings.Join(ek, " | ")+"`")
+	ik := fieldStores(cadd, enT, "Key")
+	c.decide(R, "decompress: leaf key decoded against the previous key; branch key = smallest key of the right subtree", l.pos(cadd.Pos()),
+		len(ik) == 2 && ik[0] == "deltaDecode(arg0.Key,recv.lastKey)#0" && ik[1] == "recv.minKeyStack[(len(recv.minKeyStack)-1)]", "deltaDecode(key, lastKey) | top of the min-key stack", "importer restores Key as `"+strings.Join(ik, " | ")+"`")
+	ceT, ciT := l.NamedType("", "CompressExporter"), l.NamedType("", "CompressImporter")
+	if ceT != nil && ciT != nil {
+		lk := fieldStores(next, ceT, "lastKey")
+		c.decide(R, "compress: lastKey <- the leaf's plain key", l.pos(next.Pos()), len(lk) == 1 && lk[0] == n0+".Key", "previous plain key", "exporter remembers `"+strings.Join(lk, " | ")+"`")
+		lk = fieldStores(cadd, ciT, "lastKey")
+		c.decide(R, "decompress: lastKey <- the decoded key", l.pos(cadd.Pos()), len(lk) == 1 && lk[0] == "deltaDecode(arg0.Key,recv.lastKey)#0", "previous decoded key", "importer remembers `"+strings.Join(lk, " | ")+"`")
+	}
 }
